@@ -8,6 +8,7 @@ from .common import TOL
 
 PROPERTY = "C09"
 LEVEL = "exploration"
+SUPPORTS_V4 = True  # scenarios with "v4": true run over IPv4-mapped addresses (see common.set_family)
 RUNS = {"quick": 2500, "thorough": 40000}
 RULE = ("seeded scenarios: 1-2 scripted clients send 2-12 requests (7 methods x CON/NON, partly concurrent) to a real "
         "server hosting a zoo of handlers generated per run: return with / without code, raise every "
@@ -71,7 +72,7 @@ def gen(r, tier):
     # the garbage collector is part of the schedule: it is off while a run proceeds and runs exactly at these times
     gc_at = sorted(round(r.uniform(0, t + 3), 3) for _ in range(r.choice([0, 1, 2, 4])))
     return {"reqs": reqs, "nosite": r.chance(0.05), "net": faults.swarm(r, kinds=("drop", "dup", "delay")),
-            "stall": r.chance(0.1), "gc_at": gc_at, "same_host": r.chance(0.3)}
+            "stall": r.chance(0.1), "gc_at": gc_at, "same_host": r.chance(0.3), "v4": r.chance(0.15)}
 
 
 def systematic(tier):
